@@ -3,7 +3,7 @@ use std::sync::LazyLock;
 
 use cairo_lang_utils::unordered_hash_map::UnorderedHashMap;
 use cairo_lang_utils::unordered_hash_set::UnorderedHashSet;
-use cairo_lang_utils::{extract_matches, require};
+use cairo_lang_utils::{extract_matches, require, try_extract_matches};
 use itertools::Itertools;
 use num_bigint::BigInt;
 use num_traits::{One, Signed, ToPrimitive, Zero};
@@ -1072,10 +1072,14 @@ fn get_circuit_info(
             continue;
         }
 
+        // The type info may come from a declaration that was not specialized (and validated) yet.
         let gate_inputs = long_id
             .generic_args
             .iter()
-            .map(|generic_arg| extract_matches!(generic_arg, GenericArg::Type));
+            .map(|generic_arg| try_extract_matches!(generic_arg, GenericArg::Type))
+            .collect::<Option<Vec<_>>>()
+            .ok_or(SpecializationError::UnsupportedGenericArg)?
+            .into_iter();
 
         if first_visit {
             // A gate that is (transitively) an input of itself is not a valid circuit.
@@ -1086,30 +1090,37 @@ fn get_circuit_info(
             stack.extend(gate_inputs.map(|ty| (ty.clone(), true)))
         } else {
             let output_offset = 1 + n_inputs + values.len();
-            let mut input_offsets = gate_inputs.map(|ty| values[ty]);
+            let mut input_offsets = gate_inputs
+                .map(|ty| values.get(ty).copied())
+                .collect::<Option<Vec<_>>>()
+                .ok_or(SpecializationError::UnsupportedGenericArg)?
+                .into_iter();
+            let wrong_arity = SpecializationError::UnsupportedGenericArg;
 
             if long_id.generic_id == AddModGate::ID {
-                let [lhs, rhs] = input_offsets.next_array().unwrap();
+                let [lhs, rhs] = input_offsets.next_array().ok_or(wrong_arity)?;
                 add_offsets.push(GateOffsets { lhs, rhs, output: output_offset });
             } else if long_id.generic_id == SubModGate::ID {
                 // output = sub_lhs - sub_rhs => output + sub_rhs = sub_lhs.
-                let [sub_lhs, sub_rhs] = input_offsets.next_array().unwrap();
+                let [sub_lhs, sub_rhs] = input_offsets.next_array().ok_or(wrong_arity)?;
                 add_offsets.push(GateOffsets { lhs: output_offset, rhs: sub_rhs, output: sub_lhs });
             } else if long_id.generic_id == MulModGate::ID {
-                let [lhs, rhs] = input_offsets.next_array().unwrap();
+                let [lhs, rhs] = input_offsets.next_array().ok_or(wrong_arity)?;
                 mul_offsets.push(GateOffsets { lhs, rhs, output: output_offset });
             } else if long_id.generic_id == InverseGate::ID {
                 // output = 1 / input => 1 = output * input.
                 // Note that the gate will fail if the input is not invertible.
                 // Evaluating this gate successfully implies that input is invertible.
-                let rhs = input_offsets.next().unwrap();
+                let rhs = input_offsets.next().ok_or(wrong_arity)?;
                 mul_offsets.push(GateOffsets { lhs: output_offset, rhs, output: ONE_OFFSET });
             } else {
                 return Err(SpecializationError::UnsupportedGenericArg);
             };
 
             // Make sure all the gate inputs were consumed.
-            assert!(input_offsets.next().is_none());
+            if input_offsets.next().is_some() {
+                return Err(SpecializationError::UnsupportedGenericArg);
+            }
             values.insert(ty.clone(), output_offset);
         }
     }
@@ -1123,8 +1134,9 @@ fn parse_circuit_inputs<'a>(
     circuit_outputs: impl Iterator<Item = &'a GenericArg>,
 ) -> Result<ParsedInputs, SpecializationError> {
     let mut stack: Vec<ConcreteTypeId> = circuit_outputs
-        .map(|generic_arg| extract_matches!(generic_arg, GenericArg::Type).clone())
-        .collect();
+        .map(|generic_arg| try_extract_matches!(generic_arg, GenericArg::Type).cloned())
+        .collect::<Option<_>>()
+        .ok_or(SpecializationError::UnsupportedGenericArg)?;
 
     let mut inputs: UnorderedHashMap<usize, ConcreteTypeId> = Default::default();
 
@@ -1141,15 +1153,20 @@ fn parse_circuit_inputs<'a>(
             let idx = args_as_single_value(&long_id.generic_args)?
                 .to_usize()
                 .ok_or(SpecializationError::UnsupportedGenericArg)?;
-            assert!(inputs.insert(idx, ty).is_none());
+            // Two different types may declare the same input.
+            if inputs.insert(idx, ty).is_some() {
+                return Err(SpecializationError::UnsupportedGenericArg);
+            }
         } else {
             // generic_id must be a gate. This was validated in `validate_output_tuple`.
-            stack.extend(
-                long_id
-                    .generic_args
-                    .iter()
-                    .map(|generic_arg| extract_matches!(generic_arg, GenericArg::Type).clone()),
-            );
+            // Its type info may come from a declaration that was not specialized yet.
+            for generic_arg in &long_id.generic_args {
+                stack.push(
+                    try_extract_matches!(generic_arg, GenericArg::Type)
+                        .ok_or(SpecializationError::UnsupportedGenericArg)?
+                        .clone(),
+                );
+            }
         }
     }
 
